@@ -732,6 +732,11 @@ def placement_check(prop, tier):
     for sc in live[:3]:
         run.sample({"placement": sc, "installed": next((e for e in groups.get(sc["id"], []) if e["ev"] == "Installed"), None)})
     if prop == "C01":
+        # "with the function's first bytes spanning two memory pages ... fails loudly": the OS-facing layer of the platforms this
+        # host is not, against the page-protection rules of each system (Trace_Flush: bytes change only in pages the system lets
+        # the thread write at that moment; on macOS the thread is back in execute mode at every return)
+        run.sim_part("platform variants", lambda: platform_part(run, prop, tier))
+    if prop == "C01":
         # "from any call site or thread": the instant a function's entry has been flushed another thread calls it
         er = [{"id": 1, "mode": "early", "rounds": 300 if tier == "quick" else 5000, "n": 2, "site": 16, "threads": 2}]
         eg, _, _ = vlib.run_harness("times", er, "times_C01", timeout=3000)
@@ -990,7 +995,11 @@ def platform_part(run, prop, tier):
     shims of the OS items, driven through the PatchTrait entry points; Trace_Flush under `prop`"""
     scen = []
     for variant in ("linux-x64", "linux-a64", "linux-arm", "windows-x64", "windows-a64", "macos-a64", "macos-x64"):
-        offs = (64, 4090) if tier == "quick" else (0, 64, 2048, 4084, 4090, 4093)
+        # 4088: the last word-aligned entry whose 12 bytes (every arm64 / arm patch) reach into the next page by 4 only
+        if tier == "quick":
+            offs = (64, 4093) if variant.endswith("x64") else (64, 4088)
+        else:
+            offs = (0, 64, 2048, 4084, 4088, 4090, 4093)
         for off in offs:
             if variant == "linux-arm":
                 off &= ~3     # 32-bit ARM on a 64-bit host: A32 entries only (the Thumb path folds the address into 32 bits)
